@@ -93,6 +93,7 @@ def run(vc):
                 meta=dict(part="split"), note="(PG' - PG) / w is the same for all reference machines at the bus: (p_bus - sum of setpoints) / sum(w)")
         p.prove("shared-bus:pv-gens-keep-their-setpoint", to_z(gen.row_of(vsp, pv.e, ig.PG, p.it), R) == PGf(to_z(pv.e, I)), meta=dict(part="split"))
     vc.explore("_split_p_for_gens_at_same_bus[weights]", h_split, max_paths=40)
+    run_dispatch(vc)
 
     if not hasattr(vc, "native_standins"):
         vc.native_standins = []
@@ -107,6 +108,51 @@ def classify(ob, model):
     return ob.meta.get("part", "") + ":" + ob.meta.get("element", "")
 
 
+def run_dispatch(vc):
+    """_run_pf_algorithm: the shortcut for networks that consist of reference buses only (_bypass_pf_and_set_results: every reference
+    machine covers its own bus) ignores the slack weights, so with distributed_slack the solver that equalises deviation / weight must run
+    whatever the bus types are."""
+    PF = "pandapower.powerflow"
+
+    class Fn:
+        def __init__(self, name):
+            self.name = name
+    for algorithm in ("nr", "iwamoto_nr"):
+        def h(p, algorithm=algorithm):
+            called = []
+            me = p.it.modenv(PF)
+            for nm in ("_bypass_pf_and_set_results", "_run_bfswpf", "_run_newton_raphson_pf", "_runpf_pypower", "_run_dc_pf"):
+                me.vals[nm] = Native(lambda it, *a, _nm=nm, **k: (called.append(_nm), Opaque("result"))[1], name=nm, pure=False)
+            npv, npq = SV(z3.Int("number_of_pv_buses")), SV(z3.Int("number_of_pq_buses"))
+            p.assume(z3.And(npv.z >= 0, npq.z >= 0))
+
+            class Idx:
+                def __init__(self, n):
+                    self.shape = (n,)
+            me.vals["bustypes"] = Native(lambda it, bus, gen: (Opaque("ref"), Idx(npv), Idx(npq)), name="bustypes")
+            facts = {nm: SV(z3.Int(f"rows[{nm}]")) for nm in ("svc", "tcsc", "ssc", "vsc")}
+            for v in facts.values():
+                p.assume(v.z >= 0)
+
+            class Rows:
+                def __init__(self, n):
+                    self.n = n
+
+                def sym_len(self, it):
+                    return self.n
+            ppci = PDict(dict({"bus": Opaque("bus"), "gen": Opaque("gen")}, **{k: Rows(v) for k, v in facts.items()}))
+            out = p.call(f"{PF}:_run_pf_algorithm", ppci, PDict({"algorithm": algorithm, "ac": True, "distributed_slack": True, "recycle": None}))
+            if out.raised:
+                raise EngineError(f"_run_pf_algorithm raised {out.exc!r}")
+            p.prove(f"dispatch[{algorithm}]: with distributed_slack the Newton-Raphson solver runs (no shortcut)", called == ["_run_newton_raphson_pf"],
+                    meta=dict(part="dispatch"), note="also for networks without PV and PQ buses")
+        vc.explore(f"_run_pf_algorithm[{algorithm}, distributed_slack]", h, max_paths=40)
+
+
 def replay(ob, model, finding=None):
+    if ob.meta.get("part") == "dispatch":
+        return {"script": f"# replay of {ob.id}\nfrom replaylib.distslack import main_only_reference_buses\nmain_only_reference_buses()\n",
+                "description": "runpp(distributed_slack=True) on a ring in which every bus carries an ext_grid or a slack gen: deviation / weight "
+                               "equal for all participants"}
     return {"script": f"# replay of {ob.id}\nfrom replaylib.distslack import main\nmain()\n",
             "description": "runpp(distributed_slack=True): deviation from the setpoint divided by the slack weight is the same for all participants"}
